@@ -322,11 +322,63 @@ func runC19(t *testing.T, c Case) (res Result) {
 		}
 		used := make([]bool, len(s.st.events))
 		// every acknowledged change inside the window must have exactly one event
+		// written values are unique except where a re-save of an earlier value ("same") is followed by an
+		// increment, or re-creates the record after a removal: several acknowledged changes may then
+		// legitimately carry one (key, value). Such groups are judged by count (no more events than changes,
+		// no fewer than the certain ones), not one by one.
+		type kv struct {
+			k string
+			v int64
+		}
+		group := map[kv][]*chg{}
+		for i := range changes {
+			ch := &changes[i]
+			if ch.status == "NONE" || ch.status == "NOTHING_CHANGED" || ch.status == "NOT_FOUND" || ch.status == "DELETED" {
+				continue
+			}
+			group[kv{ch.key, ch.val}] = append(group[kv{ch.key, ch.val}], ch)
+		}
+		groupDone := map[kv]bool{}
 		for _, ch := range changes {
 			if ch.status == "NONE" || ch.status == "NOTHING_CHANGED" || ch.status == "NOT_FOUND" || ch.status == "DELETED" {
 				continue // deletions carry no unique value: they are checked by count below
 			}
 			inside := ch.call > s.openSeq && ch.ret < s.closeSeq && s.openSeq != 0
+			if g := group[kv{ch.key, ch.val}]; len(g) > 1 {
+				// members that certainly claim an event; a re-save answered UPDATED may or may not have changed anything
+				claim := 0
+				for _, m := range g {
+					if !(m.kind == "same" && m.status == "UPDATED") {
+						claim++
+					}
+				}
+				if claim > 1 {
+					if groupDone[kv{ch.key, ch.val}] {
+						continue
+					}
+					groupDone[kv{ch.key, ch.val}] = true
+					must, got := 0, 0
+					for _, m := range g {
+						if !(m.kind == "same" && m.status == "UPDATED") && m.call > s.openSeq && m.ret < s.closeSeq && s.openSeq != 0 {
+							must++
+						}
+					}
+					for i, e := range s.st.events {
+						if e.key == ch.key && e.status != hydrapb.Status_DELETED && e.hasVal && e.val == ch.val && !used[i] {
+							used[i] = true
+							got++
+						}
+					}
+					if got > len(g) {
+						return fail(violation("duplicate_event", "subscriber %d received %d events for %s=%d but only %d acknowledged changes stored that value", si, got, ch.key, ch.val, len(g)))
+					}
+					if got < must {
+						return fail(violation("event_missing", "subscriber %d received %d events for %s=%d although %d acknowledged changes inside its window stored that value", si, got, ch.key, ch.val, must))
+					}
+					delivered += got
+					continue
+				}
+			}
 			var matches []int
 			for i, e := range s.st.events {
 				if e.key != ch.key || used[i] {
